@@ -26,6 +26,7 @@ type HarnessSpec struct {
 	MaxDecisions int      `json:"max_decisions"`
 	TimeoutMS    int      `json:"timeout_ms"`
 	MaxPaths     int      `json:"max_paths"`
+	MaxSeconds   int      `json:"max_seconds"`
 	Native       bool     `json:"native"` // witnesses/counterexamples are replayed natively (go test -overlay)
 	NativeTest   string   `json:"native_test"`
 	SkipGo       []string `json:"skip_go"`
@@ -227,6 +228,14 @@ func cmdRun(args []string) int {
 		if h.MaxPaths > 0 {
 			ex.MaxPaths = h.MaxPaths
 		}
+		maxS := h.MaxSeconds
+		if maxS == 0 {
+			maxS = 1500
+		}
+		if tierN > 0 {
+			maxS *= 8
+		}
+		ex.Deadline = time.Now().Add(time.Duration(maxS) * time.Second)
 		ex.Run()
 		hr := harnessResult{Name: h.Name, What: h.What, Paths: ex.PathsDone, Infeasible: ex.Infeasible, Blocks: ex.Blocks, Steps: ex.Steps,
 			Obligations: ex.Checks, Discharged: ex.Discharged, Syntactic: ex.Trivial,
